@@ -23,7 +23,7 @@ Fixpoint frag_r0 (m p : frag) : bool :=
       (fix go (l l' : list (Q * frag)) : bool :=
          match l, l' with
          | [], [] => true
-         | (c, f) :: r, (c', f') :: r' => (Qeq_bool (round64 c) c' && frag_r0 f f' && go r r')%bool
+         | (c, f) :: r, (c', f') :: r' => ((Qeq_bool (round64 c) c' || Qeq_bool c c') && frag_r0 f f' && go r r')%bool
          | _, _ => false
          end) l l'
   | _, _ => false
